@@ -109,7 +109,10 @@ class DistConstraintBuilder(ConstraintOverrideVisitor):
         scope.total_weight = total_weight
 
         # Call next_target_range for solvegroup_swizzler_range to use
-        _ = scope.next_target_range(self.rng)
+        # (with no weight at all there is nothing to select: the
+        # exclusions make the system unsolvable, which the solve reports)
+        if total_weight > 0:
+            _ = scope.next_target_range(self.rng)
 
         self.override_constraint(scope)
         
